@@ -65,6 +65,11 @@ def reportedName (pre filePath baseName : Path) : Path :=
     else []
   if override ≠ [] then override else baseName
 
+/-- `newPrefixFileInfo` (since the repair of D26): a FileInfo's name is the last element of the
+path the base was asked about, so only the root of the prefix gets another name -/
+def reportedInfoName (pre filePath baseName : Path) : Path :=
+  if filePath = pre then rootP else baseName
+
 end PrefixFS
 
 /-! ## VolumeFS (volumefs.go) on a platform without volume names: `volume = ""` for every
@@ -80,6 +85,8 @@ def translate : Call → Except Err Call
 def readlinkPost (linked : Path) : Path := trimPrefix (clean linked) []
 
 def reportedName (filePath baseName : Path) : Path := PrefixFS.reportedName [] filePath baseName
+
+def reportedInfoName (filePath baseName : Path) : Path := PrefixFS.reportedInfoName [] filePath baseName
 
 end VolumeFS
 
